@@ -412,7 +412,10 @@ class GetDescriptorHandlerBlock(Elaboratable):
         # this is required for descriptors length multiple of the maximum packet size.
         # Like this we do not overflow our position and are able to send a ZLP on the next request.
         # (At least three bits wide: the byte / word slicing below assumes two byte-select bits and a word index.)
-        position_in_stream = Signal(range(max(descriptor_max_length + 1, 8)))
+        # It must also be able to hold any start position we can be handed (e.g. when the host keeps issuing
+        # IN tokens after the end of the descriptor); a truncated position would neither match the start
+        # position nor exceed the descriptor length, and we'd wait forever for a packet that never starts.
+        position_in_stream = Signal(range(max(descriptor_max_length + 1, 8, 1 << len(self.start_position))))
         bytes_sent = Signal.like(length)
 
         # Registers that store descriptor length and data base address.
